@@ -551,6 +551,9 @@ impl Locale {
             None => (base_key, PluralRuleType::Cardinal),
         };
 
+        // `_one`, `__other`, `_ordinal_one`, ..: what is left can't name the plural, those are ordinary keys.
+        Key::new(base_key)?;
+
         PluralForm::try_from_str(suffix).map(|form| (base_key, rule_type, form))
     }
 
